@@ -170,7 +170,7 @@ def inject(scratch, prop, pid):
                 src = re.sub(r"^//@include\s+(\S+)\s*$", inc, src, flags=re.M)
                 src = expand_chunks(src)
                 modname = m.modname or f"__verif_{pid.lower()}"
-                out += f"#[cfg(kani)]\n#[allow(unused, non_snake_case)]\nmod {modname} {{\n{src}\n}}\n"
+                out += f"#[cfg(kani)]\n#[allow(unused, non_snake_case)]\npub(crate) mod {modname} {{\n{src}\n}}\n"
                 injected_text.append(src)
         open(path, "w").write(out)
         check_faithful(file, orig, out, what)
